@@ -25,7 +25,7 @@ func expLogicalAnd(tree *ParserT) error {
 		return retBooleanFalse(tree)
 	}
 
-	v, err := types.ConvertGoType(nv, types.String)
+	v, err := types.ConvertGoType(nv.Value, types.String)
 	if err != nil {
 		return err
 	}
@@ -39,7 +39,7 @@ func expLogicalAnd(tree *ParserT) error {
 		return retBooleanFalse(tree)
 	}
 
-	v, err = types.ConvertGoType(nv, types.String)
+	v, err = types.ConvertGoType(nv.Value, types.String)
 	if err != nil {
 		return err
 	}
